@@ -597,6 +597,9 @@ class DotGeneralPlugin(PrimitiveLeafPlugin):
             bias_val,
             alpha=1.0,
             beta=0.0,
+            # Gemm contracts the last axis of A; a contraction over axis 0 of the
+            # left operand needs A transposed.
+            transA=1 if lhs_contract[0] == 0 else 0,
             _outputs=[desired_name],
         )
 
